@@ -21,6 +21,8 @@ Floating point. The field theorems speak of exact arithmetic. The last sections 
 at `RQ rnd` (rationals, every operation rounded by `rnd`; `Lemmas/RasterRounded.lean`), under explicit hypotheses on `rnd`
 (monotone, integers up to the grid size kept, relative error `u`). Rounding inside the cell operators' sums is not covered.
 `scatter_stops_at_outside` and `compute_failing_bands` state what a failing call leaves behind.
+`Props/C19Partial.lean` (`add_collection_partial`, `partial_conservation`, `partial_then_compute`): which cells of which grids have been written when
+the `TypeError` leaves `addCollectionToRaster` (a prefix of the track × feature × observation order), and that a later `computeAggregates` aggregates exactly those.
 `computed_bands_persist` / `session_spec_after_setters` state what the calls AFTER a `computeAggregates` leave of its bands
 (`setNoDataValue`, `addAFMap`: nothing is rewritten; the marker in a cell without value is the one of the call that wrote it).
 
@@ -246,7 +248,8 @@ theorem add_collection_missing_feature (floor : α → Int) (s : RState α) (afo
   simp
 
 /-- an observation outside the extent (every track having every feature, at least one band): `getCell` returns `None`,
-the unpacking raises `TypeError`; bands and geometry are untouched (the values scattered before it stay, see the model) -/
+the unpacking raises `TypeError`; bands and geometry are untouched (the values scattered before it stay: exactly which ones is
+`add_collection_partial`, `Props/C19Partial.lean`) -/
 theorem add_collection_outside (s : RState α) (hg : WF s.g) (afo : List String) (T : List (Trk α))
     (hperm : afo.isPerm (afsOf s.bands) = true) (hne : afo ≠ [])
     (hfeat : ∀ t ∈ T, ∀ af ∈ afo, HasFeat t af) (hout : ∃ t ∈ T, ∃ p ∈ t.pts, ¬ Inside s.g p.1 p.2) :
@@ -601,8 +604,9 @@ example : coMin [none, some (1 : ℚ), some 2] = some 1 ∧ coMax [none, some (1
 all inside the extent, are in their cells — cell `(i, j)` holds what it held plus the values of those observations whose
 `getCell` is `(j, i)`, in order —, the loop stops there with `TypeError` (`getCell` returned `None`, the tuple unpacking
 raises), and nothing after that observation is scattered: this is the partial state `addCollectionToRaster` leaves in
-the grid of that feature. (How the partial grids of the several features and tracks combine — the `for trace: for
-afname:` order — is in the model `addColl` and compared by the driver, not stated here.) -/
+the grid of that feature. How the partial grids of the several features and tracks combine — the `for trace: for
+afname:` order — is `add_collection_partial` (`Props/C19Partial.lean`), with `partial_conservation` and
+`partial_then_compute` for what a later `computeAggregates` makes of them. -/
 theorem scatter_stops_at_outside {W : Type} (g : Grid α) (hg : WF g) (pre post : List (α × α × W)) (o : α × α × W)
     (c : Cells W) (hR : Rect c g.nrow.toNat g.ncol.toNat)
     (hpre : ∀ p ∈ pre, Inside g p.1 p.2.1) (ho : ¬ Inside g o.1 o.2.1) :
